@@ -31,7 +31,7 @@ def gen_model(rng):
     z = rng.choice([1, 2, 3, 4, 6, 8, 12, 1.5, 0.5])       # Z is a real number in SHELXL (ZERR 1.5 for a formula unit on a special position)
     cell = [round(rng.uniform(6, 20), 4) for _ in range(3)] + [round(rng.uniform(70, 110), 3) for _ in range(3)]
     wavelength = rng.choice([0.71073, 1.54178, 0.56086])
-    unit = [rng.choice([4, 8, 12, 18, 24, 36, 5]) for _ in ELEMS]
+    unit = [rng.choice([4, 8, 12, 18, 24, 36, 5, 4800, 12000]) for _ in ELEMS]
     nfv = rng.randint(3, 5)
     fv = [1.0] + [round(rng.uniform(0.1, 0.9), 3) for _ in range(nfv - 1)]
     opt = {'temp': rng.choice([None, -173.15, 20, -100.5]), 'size': rng.choice([None, [0.31, 0.22, 0.13], [0.1, 0.2], [0.2]]), 'acta': rng.random() < 0.5}
@@ -176,6 +176,8 @@ def run(ctx):
                 if t in (None, '?') or not close(t, m['opt']['temp'] + 273.15, 1e-5):
                     bad('temperature', m['opt']['temp'] + 273.15, t)
                     continue
+            if ',' in tags.get('_chemical_formula_sum', ''):
+                bad('sum formula (a number with a thousands separator is not a CIF number)', expf if 'expf' in dir() else 'plain numbers', tags.get('_chemical_formula_sum'))
             form = dict((e.upper(), float(v or 1)) for e, v in re.findall(r'([A-Za-z]+)([0-9.eE+-]*)', tags.get('_chemical_formula_sum', '')))
             expf = dict((e.upper(), u / m['z']) for e, u in zip(ELEMS, m['unit']))
             if set(form) != set(expf) or not all(close(form[e], expf[e], 1e-4) for e in expf):
